@@ -14,6 +14,14 @@ def groups(n, seed):
                                rho=float(10.0 ** rng.integers(-8, 1)))
         ps = family_spec(i * 7 + 1, rng)
         rs = {"prob": ps, "params": pk}
+        if i % 7 == 3:
+            # single precision with the default (tiny) penalty; only the repository's own instances (bounds representable in float32)
+            from pygradflow.params import Precision
+            pk["precision"] = Precision.Single
+            pk["rho"] = 1e-8
+            rs["prob"] = ("repo", ["hs71", "hs71c", "tame"][(i // 7) % 3])
+        elif i % 11 == 5:
+            pk["rho"] = float(10.0 ** -int(rng.integers(16, 20)))      # far below machine epsilon
         if i % 2:
             rs["y0scale"] = float(10.0 ** rng.integers(-8, 9))
         gs.append({"tag": "C16", "runs": [rs]})
